@@ -59,3 +59,35 @@ Fixpoint dec (long : bool) (q : N) (st : dstate) (s : text) : option (text * tex
 (* the literal MiniString writes: quote, escaped body, quote (to_short) / three quotes, body, three quotes (to_long) *)
 Definition decode_short (q : N) (body_and_rest : text) := dec false q DNorm body_and_rest.
 Definition decode_long (q : N) (body_and_rest : text) := dec true q DNorm body_and_rest.
+
+(* ---- bytes literals: only ASCII characters may appear raw, \x and the one-letter escapes are the covered escapes
+   (\u and \U are not escapes in a bytes literal; octal is not covered) ---- *)
+Fixpoint decb (long : bool) (q : N) (st : dstate) (s : text) : option (text * text) :=
+  match s with
+  | [] => None
+  | c :: s' =>
+      match st with
+      | DNorm =>
+          if c =? 92 then decb long q DEsc s'
+          else if (c =? 13) || (c =? 0) || (128 <=? c) then None
+          else if long then (if (c =? q) && starts2 q s' then Some ([], skipn 2 s') else cons_res c (decb long q DNorm s'))
+          else if c =? q then Some ([], s')
+          else if c =? 10 then None
+          else cons_res c (decb long q DNorm s')
+      | DEsc =>
+          match simple_escape c with
+          | Some v => cons_res v (decb long q DNorm s')
+          | None => if c =? 120 then decb long q (DHex 2 0) s' else None
+          end
+      | DHex n acc =>
+          match unhex c with
+          | None => None
+          | Some d =>
+              match n with
+              | O => None
+              | S O => cons_res (acc * 16 + d) (decb long q DNorm s')
+              | S n' => decb long q (DHex n' (acc * 16 + d)) s'
+              end
+          end
+      end
+  end.
